@@ -18,6 +18,7 @@ type solver struct {
 	lastModel string
 	cmd     *exec.Cmd
 	in      io.WriteCloser
+	w       *bufio.Writer
 	out     *bufio.Reader
 	depth   int
 	decl    map[string]bool
@@ -33,7 +34,7 @@ func newSolver(log io.Writer) *solver {
 	if err := cmd.Start(); err != nil {
 		panic(err)
 	}
-	s := &solver{cmd: cmd, in: in, out: bufio.NewReader(outp), decl: map[string]bool{}, log: log, stack: [][]string{nil}}
+	s := &solver{cmd: cmd, in: in, w: bufio.NewWriterSize(in, 1<<16), out: bufio.NewReaderSize(outp, 1<<16), decl: map[string]bool{}, log: log, stack: [][]string{nil}}
 	s.oneshot = os.Getenv("SYMGO_ONESHOT") != ""
 	s.send("(set-option :global-decls true)")
 	s.send("(set-option :produce-models true)")
@@ -44,7 +45,8 @@ func (s *solver) send(line string) {
 	if s.log != nil {
 		fmt.Fprintln(s.log, line)
 	}
-	io.WriteString(s.in, line+"\n")
+	s.w.WriteString(line)
+	s.w.WriteByte('\n')
 }
 
 func (s *solver) declare(name, sort string) {
@@ -114,6 +116,7 @@ func (s *solver) check() string {
 		return r
 	}
 	s.send("(check-sat)")
+	s.w.Flush()
 	line, err := s.out.ReadString('\n')
 	s.Queries++
 	s.Time += time.Since(t0)
@@ -133,6 +136,7 @@ func (s *solver) values(names []string) string {
 		return m
 	}
 	s.send("(get-value (" + strings.Join(names, " ") + "))")
+	s.w.Flush()
 	var sb strings.Builder
 	depth := 0
 	started := false
@@ -158,6 +162,7 @@ func (s *solver) values(names []string) string {
 
 func (s *solver) close() {
 	s.send("(exit)")
+	s.w.Flush()
 	s.in.Close()
 	s.cmd.Wait()
 }
